@@ -68,6 +68,11 @@ class PPOps (R : Type) extends OfScientific R, Add R, Sub R, Mul R, Div R, Neg R
   isNegInf : R → Bool
   isNaN : R → Bool
 
+/- The parent projections are instances of low priority: for a concrete carrier that has its own
+arithmetic instances (`Float`, ℝ) ordinary notation keeps meaning the carrier's own operations; only the
+generic code below (where nothing else is available) resolves `+ - * /` and literals through `PPOps`. -/
+attribute [instance 10] PPOps.toOfScientific PPOps.toAdd PPOps.toSub PPOps.toMul PPOps.toDiv PPOps.toNeg
+
 section
 variable {R : Type} [PPOps R]
 open PPOps
